@@ -103,6 +103,14 @@ CLAIMED = {
             "fusion of overlapping (not abutting) notes, kept signature streams, duration = max, views agree and order "
             "independence of (pitch, onset, duration).",
             "Different signatures of one kind on the same tick are outside the property and filtered by the validator.", "6 (C15)"),
+    "C17": ("Equals", "TLC model check of Equals.tla (single-attribute perturbation system, property table over all 16 flag sets) "
+            "+ every behaviour built on the real code through three routes + TLC trace validation of equals under all flags",
+            "TLC enumerates every legal single-attribute perturbation of 475 bases and checks the property's table "
+            "(relaxed by exactly its own flag, never both must-equal and must-differ). Each (base, perturbed) pair is built "
+            "through absolute, relative and re-ordered insertion; equals is evaluated in both directions under all 16 flag "
+            "combinations, plus reflexivity, copy and ==; TLC decides from the two observed contents whether the pair must "
+            "compare equal or must differ and checks the results.",
+            "Pairs for which the property prescribes nothing (non-uniform channel relabelling under ignore_channel) are not judged.", "6 (C17)"),
 }
 PENDING = {}
 props = [json.loads(l) for l in open(V / "properties.jsonl")]
